@@ -67,5 +67,27 @@ let handle op args = match op, args with
     (match run full with
      | None -> "err full file does not give the slice"
      | Some expected -> sweep (lens_of lens full) full (fun p -> cls expected (run p)))
+  (* k successive reads from one lazily loaded object: E = load or every read raises, Q = the reads
+     that succeed all give the data of the complete file, D = some read gives other data *)
+  | "trkretry", [k; h; lens] ->
+    let full = bytes_of_hex h in
+    let k = nat_of_int (int_of_string k) in
+    let classify exp = function
+      | None -> 'E'
+      | Some l -> let ok = List.filter_map (fun x -> x) l in
+        if ok = [] then 'E' else if List.for_all (fun x -> x = exp) ok then 'Q' else 'D' in
+    (match trk_lazy_retry offs k full with
+     | Some (Some exp :: _) -> sweep (lens_of lens full) full (fun p -> classify exp (trk_lazy_retry offs k p))
+     | _ -> "err full file does not load")
+  | "tckretry", [b; k; h; lens] ->
+    let full = bytes_of_hex h in
+    let k = nat_of_int (int_of_string k) and b = z_of_string b in
+    let classify exp = function
+      | None -> 'E'
+      | Some l -> let ok = List.filter_map (fun x -> x) l in
+        if ok = [] then 'E' else if List.for_all (fun x -> x = exp) ok then 'Q' else 'D' in
+    (match tck_lazy_retry b k full with
+     | Some (Some exp :: _) -> sweep (lens_of lens full) full (fun p -> classify exp (tck_lazy_retry b k p))
+     | _ -> "err full file does not load")
   | _ -> "err driver:badop"
 let () = run_lines handle
